@@ -7,6 +7,18 @@ ENV = "GOFLAGS=-mod=mod GOPROXY=off GOSUMDB=off GOTOOLCHAIN=local"
 TECH = "contract-based deductive verification: VCs generated from go/ssa of /repo (govc), contracts in contracts_verif.go, discharged by z3/cvc5"
 
 claimed = {
+ "C01": dict(design="8 C01", text="Proof: stream framing against an explicit ghost model of the byte stream: conn/connipc Send hand WriteTo exactly [be64(len(H)+len(B)) (IPC: 0x01 first), H, B]; Recv decodes the length from exactly the next 8 stream bytes, rejects negative/oversize before allocating, returns a body of exactly that many following stream bytes and consumes exactly 8(+1)+len; limit equal to size is accepted; WebSocket/inproc Send deliver header||body as one payload into a fresh buffer; the API Send/Recv copy the bytes; Dup/MakeUnique preserve contents; big-endian round-trip lemma.",
+             note="net.Buffers.WriteTo / io.ReadFull / binary.Read / websocket contracts and NewMessage (sync.Pool) are trusted; concurrent writers on one connection and kernel/TLS internals are outside."),
+ "C13": dict(design="8 C13", text="Proof (partial): the id allocator returns a non-zero 31-bit id that was not in use and records it; addPipe calls the protocol's AddPipe only with the pipe lock held, not closing, not yet added; on refusal or close-during-Attaching the pipe is not marked added, the lock is released and (refusal) close is scheduled; Attached and dialer notification only after added; Close runs remPipe iff added, under the pipe lock, and notifies the dialer iff there is one; only addPipe writes `added`.",
+             note="Pipe id release on non-attached paths (F7) and accessor/option contracts are not yet stated."),
+ "C15": dict(design="8 C15", text="Proof: the handshake writes 00 'S' 'P' 00 <proto big-endian> 00 00 and returns nil only if the eight bytes it read are 00 'S' 'P' 00 <expected peer> 00 00 (so every single-byte deviation is refused), consuming exactly eight bytes, and never reports the listener-closed error for a peer failure; message frames as in C01 (length covers header+body, IPC prefix 0x01).",
+             note="binary.Write field order/endianness trusted; WebSocket subprotocol strings not yet under contract."),
+ "C16": dict(design="8 C16", text="Proof: no index/slice/makeslice panic in any protocol receiver, in transport Recv or the handshake for any received bytes (unbounded symbolic input); oversize or negative length => ErrTooLong with no allocation and no further read; the limit is compared before NewMessage is called.",
+             note="Scheduling/fairness clauses outside; ws read-limit plumbing not yet under contract."),
+ "C18": dict(design="8 C18", text="Proof (partial): at every blocking API select of the raw sockets and the REP/RESPONDENT contexts the wait channel is the always-ready channel for best effort, time.After(exactly the configured deadline) for a positive deadline, and the nil channel otherwise; the timeout case maps to the timeout error (or silent drop for best effort); REQ timers are armed with exactly the configured values and only when positive; fail-no-peers: PUSH checks before blocking and waits on the no-peers signal, which RemovePipe closes under the lock when the last pipe leaves; REQ cancels exactly the contexts that asked for fail-no-peers; REP Recv clears its waiting flag on every exit.",
+             note="Timer library contract trusted; liveness/fairness clauses outside."),
+ "C19": dict(design="8 C19", text="Proof: for every option name (arbitrary string) and every dynamic value (any type tag, any payload) each protocol socket/context SetOption returns bad-option for names outside its table, bad-value for a wrong type or out-of-range value with the state unchanged, and otherwise stores exactly the value; GetOption returns the stored field or bad-option; no make(chan, n<0) or failed type assertion; core SetOption falls through protocol -> socket with the same three-way contract and ignores endpoint answers; unsupported operations return the designated error and modify nothing; Device validates before spawning forwarders; receivers never leave their loop on a queue resize (one known finding: XBUS). Three defects found and fixed.",
+             note="The option table (tools/gen_option_contracts.py) is the specification; inheritance by new contexts/endpoints not yet stated."),
  "C03": dict(design="8 C03", text="Proof (partial): the REQ receiver matches replies on the exact 32-bit id read from the message (no normalisation), only against the id->context map, forgets the id on the first match and stores the reply in that context only; short replies are dropped; cancel forgets the outstanding id and clears request/reply; every access to REQ state happens under the socket lock.",
              note="The full cross-call monitor invariant (I1-I5 of DESIGN) is not yet proved; id freshness assumed."),
  "C04": dict(design="8 C04", text="Proof (partial): each transmission hands exactly the retained request (pointer-equal, one extra reference) to one pipe and records it as lastPipe; the retry timer is armed with exactly the retry time and only when it is positive; the timer callback uses the id captured when it was armed; pipe loss re-queues via resendMessage when retries are enabled and cancels otherwise; resendMessage acts only if the id is current, the request retained and not already queued.",
